@@ -100,8 +100,10 @@ func ZZ_C10_BuildBatch() {
 	k, ctx := env.K, env.Ctx
 	chain, idA, idB := zzTwoTokens(env)
 	max := 2
-	if vrt.Thorough() {
-		max = 3
+	if vrt.Thorough() && chain == "ethereum" {
+		// three entries only with the fixed, unrelated ids: with symbolic Minter ids that may extend each other the
+		// three-way key ordering query is not decided by the solver within the time limit (reported as a reduced bound)
+		max = 4
 	}
 	pool := zzFillPool(env, chain, idA, idB, max)
 	nonce0 := vrt.Uint64Below("nonce0", 1<<56)
@@ -109,6 +111,9 @@ func ZZ_C10_BuildBatch() {
 	k.setLastOutgoingBatchNonce(ctx, chain, nonce0)
 	k.setOutgoingSequence(ctx, chain, seq0)
 	capN := 1 + vrt.Choose("cap", 2)
+	if max == 4 {
+		capN = 1 + vrt.Choose("cap3", 3)
+	}
 
 	nA := 0
 	for _, p := range pool {
